@@ -193,6 +193,9 @@ func c03(ctx *core.Ctx) {
 		} else if m == 16 || m == 17 {
 			// services with up to 130 routes on a handful of colliding paths get a share of their own (many candidates per request)
 			ctx.SetAdd("scaled_table_shapes", rt.Scale(&o3, 4))
+		} else if m == 18 || m == 19 {
+			// and so do templates of 10-18 / 10-40 / 10-70 segments (plain and with skewed literal lengths)
+			ctx.SetAdd("scaled_table_shapes", rt.Scale(&o3, 5*(ti/40)))
 		}
 		t := rt.GenTable(r, o3)
 		ctx.Case(ti, "router="+router+" table="+core.JSON(t))
@@ -388,6 +391,9 @@ func c04(ctx *core.Ctx) {
 		} else if m == 16 || m == 17 {
 			// services with up to 130 routes on a handful of colliding paths get a share of their own (many candidates per request)
 			ctx.SetAdd("scaled_table_shapes", rt.Scale(&o, 4))
+		} else if m == 18 || m == 19 {
+			// and so do templates of 10-18 / 10-40 / 10-70 segments (plain and with skewed literal lengths)
+			ctx.SetAdd("scaled_table_shapes", rt.Scale(&o, 5*(ti/40)))
 		}
 		t := rt.GenTable(r, o)
 		ctx.Case(ti, "router="+router+" table="+core.JSON(t))
@@ -606,6 +612,9 @@ func c14(ctx *core.Ctx) {
 		} else if m == 16 || m == 17 {
 			// services with up to 130 routes on a handful of colliding paths get a share of their own (many candidates per request)
 			ctx.SetAdd("scaled_table_shapes", rt.Scale(&o, 4))
+		} else if m == 18 || m == 19 {
+			// and so do templates of 10-18 / 10-40 / 10-70 segments (plain and with skewed literal lengths)
+			ctx.SetAdd("scaled_table_shapes", rt.Scale(&o, 5*(ti/40)))
 		}
 		t := rt.GenTable(r, o)
 		ctx.Case(ti, "router="+router+" table="+core.JSON(t))
